@@ -38,7 +38,7 @@ def main():
                      'serves_properties': sorted(CHECKS), 'kind_free_text': 'Lean 4 model + theorems (lake project SdcModel), translators regenerating model instances from /repo, compiled model drivers compared with the implementation in-process'}],
         'checks': checks,
         'not_applicable': NOT_APPLICABLE,
-        'notes': 'See DESIGN.md. fix: commits in /repo are listed in known_findings.json (kind=fixed).',
+        'notes': 'See DESIGN.md. fix: commits in /repo are listed in known_findings/Cxx.json (kind=fixed); unrepaired genuine defects are kind=known there.',
     }
     json.dump(m, open(os.path.join(V, 'MANIFEST.json'), 'w'), indent=1)
 
